@@ -222,6 +222,8 @@ def problems(case):
         else:
             f = {"tool": case["tool"], "shape": "", "error_class": c["class"], "detail": c.get("detail", ""),
                  "where": c.get("where", "")}
+            if f["error_class"] == "missing_method":
+                f["where"] = ""  # the same missing method is reported by every use site
             if f["error_class"] == "other":
                 f["detail"] = re.sub(r"\b[A-Z]\w*\b", "_", f["detail"])[:120]
         key = json.dumps(f, sort_keys=True)
@@ -245,6 +247,16 @@ def reductions(spec):
     out = []
     if spec["tool"] == "genum":
         o, e = spec["genum_opts"], spec["enum"]
+        # big steps first: all switches back to their defaults; a single line; a single trait
+        if any(o.get(k) != dv for k, dv in GENUM_DEFAULTS.items()):
+            s = copy.deepcopy(spec)
+            s["genum_opts"].update(GENUM_DEFAULTS)
+            out.append(s)
+        if len(e["lines"]) > 2:
+            for keep in (1, 2):
+                s = copy.deepcopy(spec)
+                s["enum"]["lines"] = s["enum"]["lines"][:keep]
+                out.append(s)
         for k, dv in GENUM_DEFAULTS.items():
             if o.get(k) != dv:
                 s = copy.deepcopy(spec)
@@ -292,7 +304,7 @@ def reductions(spec):
     return out
 
 
-def minimise(ctx, farm_runner, case, feat, rounds=10):
+def minimise(ctx, farm_runner, case, feat, rounds=10, tag="m"):
     """greedy delta-debugging: keep applying the first single-step reduction under which the
     real generators still show the same problem"""
     cur = case
@@ -302,7 +314,7 @@ def minimise(ctx, farm_runner, case, feat, rounds=10):
             break
         for s in cands:
             s["kind"] = "min"
-        res = farm_runner("min%d_%d" % (ctx.nreplay, rnd), cands)
+        res = farm_runner("min%s_%d" % (tag, rnd), cands)
         if res is None:
             break
         nxt = next((c for c in res if has_problem(c, feat)), None)
